@@ -4,15 +4,25 @@ prop("C12", "exploration",
      "rapid draws sessions: key length 1..199 (every length, edge-biased) and key bytes; 1..6 messages sealed by one instance and "
      "opened by another, plaintext/associated-data lengths from {0,1,7,8,31,32,33,199,200,201,399,...,1601} and random, 5% up to "
      "66000 bytes; each message in a drawn buffer layout (dst nil / in place / appended into a live buffer / ad and plaintext "
-     "sharing a backing array); up to 8 tampered variants per session (bit flip in body, tag or ad; truncation; extension), each "
-     "presented to a clone of the opener's state. Oracles: Open(Seal(P,A),A)=P; ciphertext and tag byte-equal to an independent "
-     "Farfalle/Kravatte-SANSE reference (whole-message, byte-array Keccak-p[1600,6], anchored to the repository's XKCP vectors and "
-     "SHA3-256); every tampered variant rejected; caller buffers outside the result untouched. Exhaustive sub-spaces: all 19900 "
-     "(key length, key byte) pairs must change the output; every single-bit flip of tag, body and ad for 16 short shapes. Raw deck "
+     "sharing a backing array / in place behind a live prefix / the same with the prefix being the associated data, the record "
+     "idiom of crypto/tls); up to 8 tampered variants per session (bit flip in body, tag or ad; truncation; extension), each "
+     "presented to a clone of the opener's state IN A DRAWN BUFFER LAYOUT TOO (dst nil / appended behind a live prefix into spare "
+     "capacity / in place behind a live prefix / prefix = associated data). Oracles: Open(Seal(P,A),A)=P; ciphertext and tag "
+     "byte-equal to an independent Farfalle/Kravatte-SANSE reference (whole-message, byte-array Keccak-p[1600,6], anchored to the "
+     "repository's XKCP vectors and SHA3-256); every tampered variant rejected; caller buffers outside the result untouched: after "
+     "Seal and after a successful Open the plaintext/ciphertext/associated-data arguments that are not the destination, the live "
+     "prefix dst[:len(dst)] and the bytes past the result are unchanged; after a REJECTED Open everything except the spare capacity "
+     "dst[len(dst):cap(dst)] (which cipher.AEAD allows Open to overwrite even on failure) is unchanged - the live prefix, the "
+     "associated data, a ciphertext in an array of its own, the bytes past the capacity. Exhaustive sub-spaces: all 19900 "
+     "(key length, key byte) pairs must change the output; every single-bit flip of tag, body and ad for 16 short shapes (layouts "
+     "rotated over the bit index). Raw deck "
      "function: arbitrary chunking of inputs/outputs equals the reference. Non-trivial = crosses a 200-byte block, or key length "
      "!= 16, or multi-message session, or aliased layout; distinct by case hash.",
      ["key lengths 1..199 as the property states (0 and >=200 are rejected / out of contract)",
-      "dst overlaps plaintext exactly or not at all (cipher.AEAD contract); associated data never overlaps dst",
+      "dst overlaps plaintext exactly or not at all (cipher.AEAD contract); associated data never overlaps the area Seal/Open "
+      "append to (it may be the live prefix dst[:len(dst)], as crypto/tls passes its record header)",
+      "cipher.AEAD's 'even if the function fails, the contents of dst, up to its capacity, may be overwritten' is read as the "
+      "spare capacity dst[len(dst):cap(dst)]: Open appends, the bytes already in dst belong to the caller",
       "the reference implementation is mine; its anchors are kravatte/testdata/xkcp.txt, xkcp-sanse.txt and crypto/sha3"],
      [dict(name="sessions", pkg="kravatte", run="^TestVerifC12(Sessions|Deck)$", shards=dict(quick=12, thorough=16), thorough_scale=50),
       dict(name="sweeps", pkg="kravatte", run="^TestVerifC12(TamperSweep|KeySweep)$", shards=dict(quick=8, thorough=8))],
